@@ -49,9 +49,10 @@ def make_case(rng, i, tier):
             iv = rng.choice([3, 5, 7, -3, -5, -7, 13, -13])
     case = {"seq": spec, "interval": iv, "bar": asbar, "zone": zone, "prefix": prefix}
     if asbar:
-        # a 4/4 bar worth of material (duration <= 96), no signature events of its own
+        # a 4/4 bar worth of material (duration <= 96), no time signature of its own; key-signature messages stay (a key
+        # change inside the bar: the bar's own key is the one in force at its start and may differ from every message)
         spec["notes"] = [n for n in notes if n[2] + n[3] <= 96]
-        spec["extra"] = [e for e in extra if e[0] in ("cc",) and e[1] <= 96]
+        spec["extra"] = [e for e in extra if e[0] in ("cc", "ks") and e[1] <= 96]
         case["bar_key"] = rng.choice(gen.KEYS + [None])
     return case
 
